@@ -17,9 +17,10 @@ CLAUSE → THEOREM TABLE (review R1-B; property text in properties.jsonl, id C05
 |  scores (and flipped thresholdings when flip=True)"                        | operations); sweep_complete, randomised_rule_is_mixture           |
 | "... that give every group the same value x of the constrained metric for   | hypothesis hms of optimal_simple_ops / optimal_EO_ops: metric     |
 |  some x on the grid {0, 1/grid_size, ..., 1}"                              | computed FROM THE ROWS = gridVal N i, i ≤ N                      |
-| "the fitted rule attains the maximum of the objective"                     | optimal_simple_ops (≤) + objective_attained_simple (the fitted    |
-|                                                                           | rule's own value of the same functional) + C04.parity_simple     |
-|                                                                           | (it is itself in the class); point form: optimal_simple          |
+| "the fitted rule attains the maximum of the objective"                     | optimal_simple_ops / optimal_EO_ops (every member ≤ fit.objective)|
+|                                                                           | + fitted_rule_attains_simple / _EO (the fitted rules ARE a member |
+|                                                                           | — ruleOps, ruleOps_prob — with class objective = fit.objective);  |
+|                                                                           | point form: optimal_simple, optimal_EO                           |
 | "group-frequency-weighted mean of the per-group objective"                 | opsObjective / mixObjective with freq = len(group)/n; objective_ |
 |                                                                           | attained_simple, objective_is_weighted_curve                     |
 | "overall accuracy or balanced accuracy for equalized odds"                 | optimal_EO_ops: obj.eval of the OVERALL expected confusion counts |
@@ -480,6 +481,122 @@ theorem ge_constant_EO (flip : Bool) (obj : Metric) (hobj : obj ∈ objectivesEO
   · exact key ⟨true, .pinf⟩ 0 0 rfl (by omega) (fun s => by simp [Op.apply, Thr.below, ind]) (gridVal_zero N)
   · exact key ⟨true, .ninf⟩ 1 N rfl (le_refl _) (fun s => by simp [Op.apply, Thr.below, ind]) (gridVal_self hN)
 
+/-! ### "... the fitted rule ATTAINS the maximum": the fitted rule is itself a member of the comparison class -/
+
+/-- the fitted Bunch of one group written as a randomisation over thresholdings: the two interpolated operations, and for
+    equalized odds the constant `prediction_constant = c` drawn with probability `p_ignore`, i.e. "predict 1" (`> -inf`)
+    with weight `p_ignore * c` and "predict 0" (`> +inf`) with weight `p_ignore * (1 - c)` -/
+def ruleOps (r : Rule) : OpMix :=
+  match r.ign with
+  | none => [(r.p0, r.op0), (r.p1, r.op1)]
+  | some (pi, c) =>
+    [((1 - pi) * r.p0, r.op0), ((1 - pi) * r.p1, r.op1), (pi * c, ⟨true, .ninf⟩), (pi * (1 - c), ⟨true, .pinf⟩)]
+
+/-- ... and it predicts 1 with exactly the probability `_pmf_predict` reports -/
+theorem ruleOps_prob (r : Rule) : (ruleOps r).prob = ruleProb r := by
+  funext s
+  rw [src_ruleProb]
+  unfold ruleOps OpMix.prob
+  rcases hr : r.ign with _ | ⟨pi, c⟩
+  · simp only [List.map_cons, List.map_nil, List.sum_cons, List.sum_nil]; ring
+  · have h1 : ind ((⟨true, .ninf⟩ : Op).apply s) = 1 := by simp [Op.apply, Thr.below, ind]
+    have h0 : ind ((⟨true, .pinf⟩ : Op).apply s) = 0 := by simp [Op.apply, Thr.below, ind]
+    simp only [List.map_cons, List.map_nil, List.sum_cons, List.sum_nil, h1, h0]
+    ring
+
+/-- **attainment, simple constraints**: the fitted rules form a member of the comparison class of `optimal_simple_ops` —
+    valid randomisations over (flip-allowed) thresholdings, common constraint value `iBest / N` computed from the rows — and
+    the class objective of this member IS `fit.objective`.  With `optimal_simple_ops`: the fitted rule attains the maximum. -/
+theorem fitted_rule_attains_simple (flip : Bool) (xm ym : Metric) (N : Nat) (groups : List (List Row)) (force : Option Nat)
+    (fit : Fit) (hN : 1 ≤ N) (hx : IsConstraintMetric xm)
+    (hfit : fitSimple flip xm ym N groups force = some fit) :
+    (fit.rules.map ruleOps).length = groups.length ∧ fit.iBest ≤ N ∧
+    (∀ j (hj : j < groups.length) (hj' : j < fit.rules.length),
+      (ruleOps fit.rules[j]).Valid flip ∧
+      xm.eval (expCM (ruleOps fit.rules[j]).prob groups[j]) = gridVal N fit.iBest) ∧
+    opsObjective ym groups (fit.rules.map ruleOps) = fit.objective := by
+  obtain ⟨_, hiN, hrl, hpar⟩ := C04.parity_simple flip xm ym N groups force fit hN hx hfit
+  obtain ⟨hulls, cs, best, hh, hc, hb, _, hrules, _, _⟩ := fitSimple_some hfit
+  obtain ⟨hi, hbest⟩ := List.getElem?_eq_some_iff.mp hb
+  obtain ⟨hrow, hent⟩ := curves_entry hx hh hN hc fit.iBest hi
+  have hlenh := (hullsOf_some hh).1
+  rw [hbest] at hrow hent
+  refine ⟨by simpa using hrl, hiN, fun j hj hj' => ?_, ?_⟩
+  · have hjb : j < best.length := by omega
+    obtain ⟨gc, hs⟩ := hent j hj hjb (by omega)
+    have hr : fit.rules[j] = simpleRule best[j] := by simp [hrules]
+    refine ⟨?_, by rw [ruleOps_prob]; exact (hpar j hj hj').1⟩
+    rw [hr]
+    refine ⟨fun wo hwo => ?_, by simp [ruleOps, simpleRule, OpMix.weight, hs.sum_one]⟩
+    have hops : flip = false → best[j].op0.gt = true ∧ best[j].op1.gt = true := by
+      intro hf; subst hf; exact ThresholdPredict.interp_ops_gt gc hs
+    simp only [ruleOps, simpleRule, List.mem_cons, List.not_mem_nil, or_false] at hwo
+    cases hflip : flip with
+    | true => rcases hwo with rfl | rfl
+              · exact ⟨hs.p0_nonneg, Or.inr rfl⟩
+              · exact ⟨hs.p1_nonneg, Or.inr rfl⟩
+    | false => rcases hwo with rfl | rfl
+               · exact ⟨hs.p0_nonneg, Or.inl (hops hflip).1⟩
+               · exact ⟨hs.p1_nonneg, Or.inl (hops hflip).2⟩
+  · rw [objective_attained_simple flip xm ym N groups force fit hN hx hfit]
+    unfold opsObjective
+    apply zipWith_sum_eq groups _ _ (fit.rules.map ruleOps) fit.rules (by simpa using hrl) hrl
+    intro j hj hja hjb
+    simp only [List.getElem_map, ruleOps_prob]
+    rfl
+
+/-- **attainment, equalized odds**: every fitted Bunch (interpolation + `p_ignore` towards the constant `x_best`) is a valid
+    randomisation over thresholdings with expected FPR `x_best` and TPR `y_best` from the rows, and the overall objective of
+    this family is `fit.objective` -/
+theorem fitted_rule_attains_EO (flip : Bool) (obj : Metric) (N : Nat) (groups : List (List Row)) (force : Option Nat)
+    (fit : Fit) (yBest : Rat) (hN : 1 ≤ N)
+    (hfit : fitEO flip obj N groups force = some (fit, yBest)) :
+    (∀ j (hj : j < groups.length) (hj' : j < fit.rules.length),
+      (ruleOps fit.rules[j]).Valid flip ∧
+      eoXMetric.eval (expCM (ruleOps fit.rules[j]).prob groups[j]) = gridVal N fit.iBest ∧
+      eoYMetric.eval (expCM (ruleOps fit.rules[j]).prob groups[j]) = yBest) ∧
+    obj.eval (overallCMp groups ((fit.rules.map ruleOps).map OpMix.prob)) = fit.objective := by
+  obtain ⟨_, hiN, hrl, hpar⟩ := C04.parity_EO flip obj N groups force fit yBest hN hfit
+  obtain ⟨hulls, cs, ymins, best, hh, hc, _, hb, _, _, hrules, _, _⟩ := fitEO_some hfit
+  have hx := C04.eo_metric_is_constraint
+  obtain ⟨hi, hbest⟩ := List.getElem?_eq_some_iff.mp hb
+  obtain ⟨hrow, hent⟩ := curves_entry hx hh hN hc fit.iBest hi
+  have hlenh := (hullsOf_some hh).1
+  rw [hbest] at hrow hent
+  refine ⟨fun j hj hj' => ?_, ?_⟩
+  · have hjb : j < best.length := by omega
+    obtain ⟨gc, hs⟩ := hent j hj hjb (by omega)
+    obtain ⟨ex, ey, pi, c, hign, hp0, hp1, hcv⟩ := hpar j hj hj'
+    have hr : fit.rules[j] = eoRule (gridVal N fit.iBest) yBest best[j] := by simp [hrules]
+    refine ⟨?_, by rw [ruleOps_prob]; exact ex, by rw [ruleOps_prob]; exact ey⟩
+    have hc0 : 0 ≤ c := by rw [hcv]; exact gridVal_nonneg N fit.iBest
+    have hc1 : c ≤ 1 := by rw [hcv]; exact gridVal_le_one hN hiN
+    have hops : flip = false → best[j].op0.gt = true ∧ best[j].op1.gt = true := by
+      intro hf; subst hf; exact ThresholdPredict.interp_ops_gt gc hs
+    have hro : fit.rules[j].op0 = best[j].op0 ∧ fit.rules[j].op1 = best[j].op1 ∧ fit.rules[j].p0 = best[j].p0 ∧
+        fit.rules[j].p1 = best[j].p1 := by rw [hr]; exact ⟨rfl, rfl, rfl, rfl⟩
+    have hgt : ∀ o : Op, o = fit.rules[j].op0 ∨ o = fit.rules[j].op1 → (o.gt = true ∨ flip = true) := by
+      intro o ho
+      cases hflip : flip with
+      | true => exact Or.inr rfl
+      | false =>
+        rcases ho with rfl | rfl
+        · exact Or.inl (by rw [hro.1]; exact (hops hflip).1)
+        · exact Or.inl (by rw [hro.2.1]; exact (hops hflip).2)
+    refine ⟨fun wo hwo => ?_, ?_⟩
+    · simp only [ruleOps, hign, List.mem_cons, List.not_mem_nil, or_false] at hwo
+      rcases hwo with rfl | rfl | rfl | rfl
+      · exact ⟨mul_nonneg (by linarith) (by rw [hro.2.2.1]; exact hs.p0_nonneg), hgt _ (Or.inl rfl)⟩
+      · exact ⟨mul_nonneg (by linarith) (by rw [hro.2.2.2]; exact hs.p1_nonneg), hgt _ (Or.inr rfl)⟩
+      · exact ⟨mul_nonneg hp0 hc0, Or.inl rfl⟩
+      · exact ⟨mul_nonneg hp0 (by linarith), Or.inl rfl⟩
+    · simp only [ruleOps, hign, OpMix.weight, List.map_cons, List.map_nil, List.sum_cons, List.sum_nil]
+      have hsum : fit.rules[j].p0 + fit.rules[j].p1 = 1 := by rw [hro.2.2.1, hro.2.2.2]; exact hs.sum_one
+      have : fit.rules[j].p1 = 1 - fit.rules[j].p0 := by linarith
+      rw [this]; ring
+  · rw [objective_attained_EO flip obj N groups force fit yBest hN hfit, overallCM_eq_overallCMp]
+    simp only [List.map_map, Function.comp_def, ruleOps_prob]
+
 /-! ### Non-vacuity -/
 
 def gA : List Row := [⟨1, true⟩, ⟨1, true⟩, ⟨1/2, false⟩, ⟨1/2, true⟩, ⟨0, false⟩]
@@ -531,5 +648,13 @@ example : Metric.eval .accuracy_score (overallCMp ex ([mHalf, mHalf, mHalf].map 
 -- a rule of the class that is NOT a tradeoff point itself (threshold on a score, flipped part): its metric pair from the rows
 example : (Metric.eval .false_positive_rate (expCM mFlip.prob gB), Metric.eval .true_positive_rate (expCM mFlip.prob gB)) =
     (5/8, 1/2) := by decide +kernel
+
+-- attainment: the fitted family, written as randomisations over thresholdings, has class objective = fit.objective
+example : (fitSimple false .selection_rate .accuracy_score 2 ex none).map
+    (fun f => opsObjective .accuracy_score ex (f.rules.map ruleOps)) = some (13/17) := by decide +kernel
+example : (fitEO false .accuracy_score 4 ex none).map (fun f =>
+      (f.1.rules.map (fun r => (ruleOps r).weight),
+       Metric.eval .accuracy_score (overallCMp ex ((f.1.rules.map ruleOps).map OpMix.prob)))) =
+    some ([1, 1, 1], 43/68) := by decide +kernel
 
 end C05
